@@ -47,6 +47,18 @@ let () =
          else begin
            let ((r, tr), outs) = run_script_open_extract (bytes_of_hex hex) faults in
            Printf.printf "%s|%s|%s\n" (String.concat "," (List.map (fun x -> string_of_int (int_of_n x)) r)) (pr_ev tr) (pr_outs outs) end
+     | "kwajl2", [script; fl; hex] ->
+         let faults = if fl = "-" then [] else List.map (fun t -> match List.map int_of_string (String.split_on_char ':' t) with
+                        | [k; i; m] -> ((n_of_int k, n_of_int i), n_of_int m) | _ -> ((N0, N0), N0)) (String.split_on_char ',' fl) in
+         let pr_ev tr = String.concat ";" (List.map (fun l -> String.concat " " (List.map (fun x -> string_of_int (int_of_n x)) l)) tr) in
+         let pr_outs outs = String.concat "," (List.map (fun o -> if o = [] then "-" else hex_of_bytes o) outs) in
+         let ints_s l = String.concat "," (List.map (fun x -> string_of_int (int_of_n x)) l) in
+         if script = "A" then begin
+           let (((e, le), tr), outs) = run_kscript_decompress (bytes_of_hex hex) faults in
+           Printf.printf "%d,%d|%s|%s|\n" (int_of_n e) (int_of_n le) (pr_ev tr) (pr_outs outs) end
+         else begin
+           let (((r, hd), tr), outs) = run_kscript_open_extract (bytes_of_hex hex) faults in
+           Printf.printf "%s|%s|%s|%s\n" (ints_s r) (pr_ev tr) (pr_outs outs) (ints_s hd) end
      | "find", [salv; offs; hex] ->
          let bytes = bytes_of_hex hex in
          let truth = if offs = "-" then [] else ints offs in
